@@ -149,7 +149,17 @@ def run_check(mod, tier, seed, jobs=None, time_cap=None):
     ctx = multiprocessing.get_context('fork')
     with ctx.Pool(jobs) as pool:
       it = pool.imap_unordered(_worker, list(enumerate(units)), chunksize=1)
-      for idx, packed, err in it:
+      while done < n_units:
+        remaining = time_cap - (time.time() - t0)
+        try:
+          # the cap is enforced also while every worker is inside a long unit
+          idx, packed, err = it.next(timeout=max(remaining, 0.1))
+        except multiprocessing.TimeoutError:
+          capped = True
+          pool.terminate()
+          break
+        except StopIteration:
+          break
         if err:
           harness_errors.append((idx, err))
         else:
